@@ -56,6 +56,8 @@ ROWS = [
     ("config::base::*", "unwrap", ["call:try_with"], "LocalKey::try_with fails only during thread teardown", True),
     ("config::base::*", "borrow", ["param:c"], "no RefCell borrow of the configuration is held across a call: every accessor borrows, reads one field and returns", True),
     ("config::base::*", "unwrap", ["call:RwLock::<T>::read"], "poison-class after the configuration became process-wide", True),
+    ("system_metric::get_process_memory_stat", "unwrap", ["call:process", "static:SYSTEM"], "System::process(pid) for the live current pid right after refresh_process(pid) is Some", True),
+    ("system_metric::get_process_cpu_stat", "unwrap", ["call:process", "static:SYSTEM"], "as above", True),
     # ---- exporter (core-super): lazy_static initialisers
     ("exporter::*", "unwrap", ["call:new"], "prometheus metric constructed from literal, distinct name/help/labels inside a lazy_static initialiser (runs once)", True),
     ("exporter::*", "unwrap", ["call:register"], "registered once per process from a lazy_static initialiser", True),
